@@ -47,7 +47,7 @@ def run_one(variant, run_seed, overrides=None, decisions=None, pool=None):
         cmd += ['--override', ','.join('%s=%d' % kv for kv in sorted(overrides.items()))]
     if decisions is not None:
         cmd += ['--decisions', ','.join(str(d) for d in decisions) if decisions else '-1']
-    rc, out, err = (pool.run(cmd, 180) if pool else C.run_cmd(cmd, timeout=180))
+    rc, out, err = (pool.run(cmd, 900) if pool else C.run_cmd(cmd, timeout=900))
     recs = _parse(out)
     v = [r for r in recs if r.get('result') == 'violation']
     ok = [r for r in recs if r.get('result') == 'ok']
